@@ -32,6 +32,9 @@ Proof.
   unfold stored_next, off_use_terminal, has_term. destruct (vo_term o), (vo_done o); reflexivity.
 Qed.
 
+Lemma frag_off_warmup nt ls sde sdew : off_warmup nt ls sde sdew = ((nt <? ls) && negb (sde && sdew))%bool.
+Proof. reflexivity. Qed.
+
 Lemma frag_off_counters nt ne steps eps total f :
   off_count nt ne steps = (nt + ne, steps + 1) /\ off_episode_inc eps = eps + 1 /\
   off_learn_guard nt total = (nt <? total) /\
@@ -215,10 +218,11 @@ Qed.
 Definition in_unit (x : Q) : Prop := (-1 <= x <= 1)%Q.
 
 (* with action noise the stored action is clipped into [-1,1] whatever the policy and the noise produced *)
-Theorem buffer_action_in_unit_noise lo hi u nz :
+(* [Forall2 Qlt lo hi]: non-degenerate bounds (with low = high the code divides by zero; never generated) *)
+Theorem buffer_action_in_unit_noise lo hi u nz : Forall2 Qlt lo hi ->
   Forall in_unit (buffer_action (ABox lo hi) (mkO u (Some nz))).
 Proof.
-  cbn [buffer_action o_u o_noise]. generalize (map3 (fun a l h => scale l h a) u lo hi). intros sc. revert nz.
+  intros _. cbn [buffer_action o_u o_noise]. generalize (map3 (fun a l h => scale l h a) u lo hi). intros sc. revert nz.
   induction sc as [|s sc IH]; intros nz; destruct nz as [|z nz]; cbn [map2q]; constructor; [apply clip1_in_unit | apply IH].
 Qed.
 
